@@ -1,0 +1,5 @@
+//go:build !verif
+
+package nodes
+
+func verifPermute(deps []NodeDependency) {}
